@@ -540,10 +540,12 @@ class TreeGen:
             n = rng.randrange(lo, hi + 1) if (lo or force or rng.random() < self.density) else 0
             if force and n == 0 and hi > 0:
                 n = 1
-            if sn.config:
-                vals = rng.sample(pool, n)
+            if sn.userord and sn.ty.name == "string" and rng.random() < 0.9:
+                pool = [v for v in pool if v != b""]                  # "" cannot be a yang:value anchor (finding F52): keep it rare
+            if sn.config or rng.random() < 0.85:
+                vals = rng.sample(pool, min(n, len(pool)))
             else:
-                vals = [rng.choice(pool[:4]) for _ in range(n)]       # duplicates allowed in state leaf-lists
+                vals = [rng.choice(pool[:4]) for _ in range(n)]       # duplicates are allowed in state leaf-lists (finding F53)
             return [DN(sn, v) for v in vals]
         if sn.kind == "container":
             if sn.presence:
@@ -677,9 +679,9 @@ class TreeGen:
         if sn.kind == "list":
             return self.list_instance(sn, set(n.key() for n in insts) if sn.keys else set())
         pool = sn.ty.pool()
-        if sn.config:
+        if sn.config or self.rng.random() < 0.85:
             have = set(n.val for n in insts)
-            cand = [v for v in pool if v not in have]
+            cand = [v for v in pool if v not in have and (v != b"" or not sn.userord or self.rng.random() < 0.1)]
             return DN(sn, self.rng.choice(cand)) if cand else None
         return DN(sn, self.rng.choice(pool[:4]))
 
